@@ -659,6 +659,17 @@ fn cont_props(prop: &str, tier: &str, seed: u64, threads: usize, out: &str) {
             extra.insert("mutations".into(), format!("structural: {nseeds} seeds x 4 flavours x 2 formats; random: {nr}"));
         }
         _ => {
+            // containers that are the only owner of connected nodes: what remove() hands back (ownership histories)
+            exec::new_section();
+            let nown = if quick { 200 } else { 3000 };
+            spread_with(&mut ctxs, nown, |i, ctx| {
+                let mut rng = Rng::new(seed.wrapping_mul(103).wrapping_add(i as u64));
+                let nn = 2 + rng.below(4);
+                let lines = exec_own::gen_history(&mut rng, all[i % 4], &format!("own{i}"), nn, 70);
+                exec_own::run_program(&lines, ctx);
+                ctx.count("cases");
+            });
+            extra.insert("sole_owner".into(), format!("{nown} ownership histories (containers as the only owner of connected nodes; remove hands the node back)"));
             // containers over keys with colliding hashes (the subset of the requests the w* executor has)
             exec::new_section();
             let nw = if quick { 120 } else { 2000 };
@@ -1002,7 +1013,8 @@ fn conc_props(tier: &str, seed: u64, out: &str) {
         ("u<->v", vec!["connect 0 1 7".into(), "connect 1 0 8".into()]),
         ("loop+par", vec!["connect 0 0 5".into(), "connect 0 1 7".into(), "connect 0 1 9".into()]),
     ];
-    let muts = ["c.0.1.1", "c.1.0.2", "t.0.1.3", "t.1.0.4", "d.0.1", "d.1.0", "x.0", "x.1"];
+    // mutators on the pair (0, 1) in both directions, and on node 0 alone (self-loops)
+    let muts = ["c.0.1.1", "c.1.0.2", "t.0.1.3", "t.1.0.4", "d.0.1", "d.1.0", "x.0", "x.1", "c.0.0.6", "t.0.0.7", "d.0.0"];
     // readers: queries, whole iterations, and traversals (B/D = bfs/dfs search, T = transposed bfs, P = preorder)
     let reads_di = ["q.0.1", "g.0", "o.1", "i.0", "i.1", "n.1", "r.1", "l.0", "f.1.0", "F.0.1", "B.0.1", "D.1.0", "T.1.0", "P.0"];
     let reads_un = ["q.0.1", "g.0", "o.1", "i.0", "i.1", "F.1.0", "B.0.1", "D.1.0", "P.1"];
@@ -1128,7 +1140,7 @@ fn conc_props(tier: &str, seed: u64, out: &str) {
     for (k, v) in per_fl {
         extra.insert(format!("schedules.{k}"), format!("{v}"));
     }
-    extra.insert("scenarios".into(), format!("up to {} per flavour (every pair of the 8 two-node mutators, every mutator against every reader (14 directed / 9 undirected, traversals included), x initial states{})", nscen, if quick { "" } else { "; plus 3-thread and 2-calls-per-thread scenarios" }));
+    extra.insert("scenarios".into(), format!("up to {} per flavour (every pair of the 11 mutators on two nodes (self-loop mutators included), every mutator against every reader (14 directed / 9 undirected, traversals included), x initial states{})", nscen, if quick { "" } else { "; plus 3-thread and 2-calls-per-thread scenarios" }));
     ctx.counters.insert("cases".into(), total as u64);
     write_outputs(out, &ctxs, extra);
 }
